@@ -20,6 +20,18 @@ pub fn dispatch(f: &[&str]) -> Option<String> {
         "defer" => defer_run(f[1]),
         "it_drop" => nlist((0..n(1)).drop(z(2))),
         "it_slice" => nlist((0..n(1)).slice(z(2), z(3))),
+        // the same on iterators whose size hint is not exact (filter, flat_map) and on a chain
+        "it_slice_f" => nlist((0..n(1)).filter(|x| x % 3 != 0).slice(z(2), z(3))),
+        "it_slice_m" => nlist((0..n(1)).flat_map(|x| if x % 2 == 0 { vec![x] } else { vec![] }).collect::<Vec<_>>().into_iter().filter(|x| x % 4 != 0).slice(z(2), z(3))),
+        "it_slice_c" => nlist((0..n(1)).chain(100..100 + n(1)).slice(z(2), z(3))),
+        "it_drop_f" => nlist((0..n(1)).filter(|x| x % 3 != 0).drop(z(2))),
+        "it_drop_c" => nlist((0..n(1)).chain(100..100 + n(1)).drop(z(2))),
+        "it_first_f" => match (0..n(1)).filter(|x| x % 3 == 2).first() {
+            Some(x) => format!("N:{}", x),
+            None => "NONE".into(),
+        },
+        "it_single_f" => res_num((0..n(1)).filter(|x| x % 3 == 2).single()),
+        "it_last_f" => res_num((0..n(1)).filter(|x| x % 3 == 2).last_result()),
         "it_first" => match (0..n(1)).first() {
             Some(x) => format!("N:{}", x),
             None => "NONE".into(),
